@@ -1,19 +1,36 @@
 (* Correspondence definitions for C22: the model printer against the SHOW CREATE TABLE text the engine produced. *)
 From Coq Require Import List NArith Bool.
 Import ListNotations.
-From GMS Require Import Lang.ShowCreate.
+From GMS Require Import Lang.ShowCreate Lang.C22Objects.
 
-(* the schema the driver generated (in catalog-normal form) and the text SHOW CREATE TABLE returned *)
-Definition case : Type := (table * str)%type.
+(* what the driver observed:
+   CTable: the schema it generated (catalog-normal form) and the text SHOW CREATE TABLE returned;
+   CView:  view name, the definition text after AS, and the text SHOW CREATE VIEW returned;
+   CEcho:  object name, the CREATE TRIGGER / PROCEDURE statement, and the text SHOW CREATE TRIGGER / PROCEDURE returned *)
+Inductive case :=
+| CTable (t : table) (obs : str)
+| CView (name text obs : str)
+| CEcho (name stmt obs : str).
 
 Definition ok (c : case) : bool :=
-  let '(t, obs) := c in
-  str_eqb (print_table t) obs &&
-  (negb (wf_table t) ||
-   match parse_table obs with
-   | Some t' => str_eqb (print_table t') obs
-   | None => false
-   end).
+  match c with
+  | CTable t obs =>
+    str_eqb (print_table t) obs &&
+    (negb (wf_table t) ||
+     match parse_table obs with
+     | Some t' => str_eqb (print_table t') obs
+     | None => false
+     end)
+  | CView name text obs =>
+    str_eqb (print_view name text) obs &&
+    (negb (no_backtick name) ||
+     match parse_view obs with Some (n, x) => str_eqb n name && str_eqb x text | None => false end)
+  | CEcho name stmt obs =>
+    match create_obj [] name stmt with
+    | Some c' => match show_obj c' name with Some s => str_eqb s obs | None => false end
+    | None => false
+    end
+  end.
 
 Definition mismatches (cs : list (N * case)) : list N :=
   map fst (filter (fun p => negb (ok (snd p))) cs).
